@@ -6,6 +6,7 @@ import Driver.DecEngine
 import Driver.FFEngine
 import Driver.RpcEngine
 import Driver.SPEngine
+import Driver.PTEngine
 /-! Line-protocol driver: one operation per input line; for every line the driver prints the
     model's observations (lines starting with `O `) followed by a line containing a single `.`.
     Core Lean only (linked as an executable). -/
@@ -29,6 +30,7 @@ def stepLine (st : DState) (toks : List String) : DState × List String :=
   | "FF" :: rest => (st, ffStep rest)
   | "RPC" :: rest => (st, rpcStep rest)
   | "SP" :: rest => (st, spStep rest)
+  | "PT" :: rest => (st, ptStep rest)
   | "RI" :: rest => let (c, obs) := riStep st.cont rest
                     ({ st with cont := c }, obs)
   | "LRU" :: rest => let (c, obs) := lruStepD st.cont rest
